@@ -8,6 +8,7 @@ import HappyModel.C01.Process
       acts, comma separated:  E tgt kind delayNs daemon hook | X kind | R f val | A f g… | L f g… | N f | C ent | U ent |
                               AH kind hook | M ent abs v | RL tgt kind delayNs limit daemon
     hop <index of pre-run event> <hops>
+    start <ns>                                   start_time of the run (default 0)
     lvl <ent> <v>
       term:                   Y delayNs | W f | Z
 -/
@@ -78,6 +79,7 @@ structure Program where
   held : List Spec := []                    -- created before the run (after the scheduled ones), not scheduled
   levels : List (Nat × Int) := []           -- initial `level` attribute of entities (absent = None)
   hops : List (Nat × Nat) := []             -- creation tag of a pre-run event ↦ the `hops` metadata it is scheduled with
+  start : Nat := 0                          -- `Simulation(start_time=…)`: the clock the run starts at
 
 def parseProgram (body : List String) : Program :=
   body.foldl (fun p line =>
@@ -88,11 +90,12 @@ def parseProgram (body : List String) : Program :=
       { p with pre := p.pre ++ [(⟨natD t, natD tgt, natD kind, natD dm != 0, 0, p.pre.length + 1⟩, natD hk, natD c != 0)] }
     | ["held", tgt, kind, t, dm] =>
       { p with held := p.held ++ [⟨natD t, natD tgt, natD kind, natD dm != 0, 0, 0⟩] }
+    | ["start", t] => { p with start := natD t }
     | ["hop", i, h] => { p with hops := (natD i + 1, natD h) :: p.hops }
     | ["lvl", x, v] => { p with levels := (natD x, intD v) :: p.levels.filter (fun q => q.1 != natD x) }
     | _ => p) {}
 
-/-- initial engine state of a program at clock 0 -/
+/-- initial engine state of a program at its start clock -/
 def Program.initState (p : Program) (gateCont : Bool) : St PS :=
   let specs := p.pre.map (·.1)
   let n := specs.length
@@ -103,7 +106,7 @@ def Program.initState (p : Program) (gateCont : Bool) : St PS :=
       lastKind := (ids.zip specs).foldl (fun acc q => (q.2.kind, q.1) :: acc.filter (fun x => x.1 != q.2.kind)) [],
       level := p.levels, hopsOf := p.hops,
       hookOf := (ids.zip p.pre).filterMap (fun q => if q.2.2.1 = 0 then none else some (q.1, q.2.2.1)) }
-  let s : St PS := init ps 0 specs
+  let s : St PS := init ps p.start specs
   { s with cancelled := (ids.zip p.pre).filterMap (fun q => if q.2.2.2 then some q.1 else none) }
 
 def obsLine : Obs → String
